@@ -436,7 +436,7 @@ def evaluate__comma_operator(self: XPathToken, context: ta.ContextType = None) \
         -> list[ta.ItemType]:
     results: list[ta.ItemType] = []
     for op in self:
-        result = op.evaluate(context)
+        result = op.evaluate(copy(context))  # every operand starts from the focus of the expression
         if isinstance(result, list):
             results.extend(result)
         elif result is not None:
